@@ -497,6 +497,58 @@ LAUNCH_CASES = [("laplace_single", "screen3", ("P", 1), ("DP", 0), None), ("lapl
                 ("modified_single", "tetra", ("P", 1), ("DP", 0), None)]
 
 
+def ob_colouring_sequence(mesh):
+    """bounded: several spaces created and coloured one after the other on the SAME grid object (same kind and support, different DOF layout: boundary dofs
+    excluded / included / extended): each space's own colouring separates elements with a common dof, whatever was coloured before it."""
+    import bempp_cl.api as api
+
+    warnings.simplefilter("ignore")
+    v, e = getattr(SG, mesh[0])(*mesh[1])
+    ne = np.asarray(e).shape[1]
+    n = 0
+    subs = [None] + supports(ne, False, 11)[1:5]
+    # a support that survives the pruning of dof-less elements when boundary dofs are excluded (fixed point): the spaces of a sequence then have the SAME
+    # support elements and differ only in their DOF layout
+    for kind0 in ("P", "RWG"):
+        cur = list(range(ne))
+        for _ in range(6):
+            try:
+                sp0 = api.function_space(SG.make_grid(v, e), kind0, 1 if kind0 == "P" else 0, support_elements=np.array(cur, dtype="uint32"), include_boundary_dofs=False)
+            except Exception:  # noqa
+                cur = []
+                break
+            nxt = [int(x) for x in sp0.support_elements]
+            if nxt == cur:
+                break
+            cur = nxt
+        if cur and cur not in subs:
+            subs.append(cur)
+    for sub in subs:
+        for kind in ("P", "RWG", "SNC"):
+            grid = SG.make_grid(v, e)
+            seq = [(False, True), (True, True), (True, False), (False, False), (True, True)]
+            for ib, tr in seq:
+                kw = {"include_boundary_dofs": ib, "truncate_at_segment_edge": tr}
+                if sub is not None:
+                    kw["support_elements"] = np.array(sub, dtype="uint32")
+                try:
+                    s = api.function_space(grid, kind, 0 if kind != "P" else 1, **kw)
+                except Exception:  # noqa
+                    continue
+                n += 1
+                msg = colour_contract(s)
+                if msg is not None:
+                    return violated("%s on %s support=%s include_boundary_dofs=%s truncate_at_segment_edge=%s, created after other spaces on the same grid: %s"
+                                    % (kind, mesh[0], sub, ib, tr, msg), witness={"mesh": mesh, "kind": kind, "support": sub, "sequence": seq},
+                                    replay={"callable": "checks.c16:replay_colouring_sequence", "kwargs": {"mesh": mesh}, "confirmed": True}, signature="colouring-sequence/%s" % kind)
+    return held("%d spaces coloured in sequences on shared grids" % n)
+
+
+def replay_colouring_sequence(mesh):
+    r = ob_colouring_sequence(tuple(mesh) if not isinstance(mesh, tuple) else mesh)
+    return {"violates": r["status"] == "violated", "detail": r["detail"]}
+
+
 def ob_launch_runtime(case):
     opname, gridname, tk, rk, sub = case
     with warnings.catch_warnings():
@@ -621,6 +673,9 @@ def main():
 
     for blk in ("_p1_final_block", "_rwg_final_block"):
         VR.add_block(run, "contracts.dofmap_blocks", blk)
+    # hypothesis "inverse" of lemma B: invert_local2global (V-engine, all sizes)
+    VR.add_function(run, "bempp_cl.api.space.space", "invert_local2global", "contracts.space_maps",
+                    [{"local2global_map": [[0, 1, 2], [2, 1, 3]], "local_multipliers": [[1, 1, 0], [1, -1, 1]]}, {"local2global_map": [[1, 1], [0, 1]], "local_multipliers": [[0, 1], [1, 0]]}])
     run.add("lemma.greedy-step-preserves-colouring", "lemma", ob_lemma_greedy)
     for ns in (1, 3, 6):
         run.add("lemma.neighbour-set-covers-shared-dofs[ns=%d]" % ns, "lemma", ob_lemma_neighbours, ns)
@@ -629,6 +684,8 @@ def main():
         for kind, deg in KINDS:
             run.add("colouring[%s%s,%s%d]" % (mesh[0], "".join(map(str, mesh[1])), kind, deg), "bounded", ob_colouring, mesh, kind, deg, thorough)
         run.add("csr-indexptr[%s%s]" % (mesh[0], "".join(map(str, mesh[1]))), "bounded", ob_csr_runtime, mesh)
+    for mesh in [("screen", (3,)), ("octa", ())] + ([("screen", (4,)), ("cube12", ())] if thorough else []):
+        run.add("colouring-sequence[%s%s]" % (mesh[0], "".join(map(str, mesh[1]))), "bounded", ob_colouring_sequence, mesh)
     for case in (LAUNCH_CASES if thorough else LAUNCH_CASES[:6]):
         run.add("launch[%s,%s,%s%d,%s]" % (case[0], case[1], case[2][0], case[2][1], case[4]), "bounded", ob_launch_runtime, case)
     if thorough:
